@@ -42,6 +42,8 @@ pub enum Sem {
     Boom,
     /// Bool -> Array(Bool) with that single element
     Lift,
+    /// (Bool, T) -> T: the second argument whenever the first has a value
+    Pick,
 }
 
 #[derive(Clone, Debug)]
